@@ -565,6 +565,8 @@ theorem mwithdraw_step {s s' : State} {marker admin to : Addr} {ids : List Scope
             · split at h
               · simp at h
               · rename_i hf
+                split at h
+                · simp at h
                 simp at h; subst h
                 have hf' : hasFunds s.ledger marker ids = true := by simpa using hf
                 have hw' : m.has admin .withdraw = true := by simpa using hw
